@@ -803,3 +803,105 @@ Theorem C06_connect_chan_prop_set_composed : forall sx st a stk al ig csx cst p 
 Proof. exact ConnectComposeProofs.chan_prop_set_composed. Qed.
 Print Assumptions C06_connect_chan_prop_set_composed.
 (* ==== end of block (connect composed) ==== *)
+
+(* ==== prv_register / chan_init from source, composed with connect (unit prvreg) ==== *)
+(* prv_register, check_flags, get_id of src/emu/pv/prv.c and chan_init of src/emu/chan.c are regenerated on every run (unit
+   prvreg: Gen/PrvReg_gen.v over Emu/PrvRegPre.v, Gen/ChanInit_gen.v over Emu/ChanInitPre.v).
+   C06_prv_register_from_source: on a registered channel, consistent flags and a (row, type) pair without a channel, the
+   generated prv_register appends the emit callback {side of this PRV file, row, type, flags} at the END of the channel's emit
+   callbacks and adds id = type * nrows + row to the hash table; C06_prv_register_refusals: a pair that already has a channel
+   and inconsistent flags are refused (ConnectPre's hand-written prv_register does not model these two refusals: its meaning
+   is the success path).
+   C06_connect_prv_register_composed: ConnectPre.prv_register on a registered channel object IS the generated prv_register
+   on its bay id, on the connect state's bay.  C06_chan_init_from_source / C06_connect_chan_init_composed: the generated
+   chan_init leaves the zeroed struct chan with the given type (die when the formatted name does not fit 512 bytes), which is
+   the (stack?, false, false) object ConnectPre.chan_init records and the struct C06_connect_chan_prop_set_composed starts
+   from.  With these every primitive of ConnectPre that touches the bay is derived from generated code; what keeps
+   C06_wiring_from_source_partial partial is the induction over sizes and the hand-written calling loops of connect_all. *)
+From OV Require Emu.PrvRegPre Gen.PrvReg_gen Emu.ChanInitPre Gen.ChanInit_gen Proofs.PrvRegProofs.
+
+Theorem C06_prv_register_from_source : forall sx st row type c flags,
+  PrvRegPre.rn_alloc_ok sx = true -> PrvRegPre.valid st c = true -> PrvRegProofs.flags_ok flags = true ->
+  existsb (Z.eqb (PrvRegProofs.id_of_row sx type row)) (PrvRegPre.rs_ids st) = false ->
+  PrvReg_gen.prv_register (Some tt) row type (Some tt) (Some c) flags sx st =
+  Ok (tt, {| PrvRegPre.rs_bay := PrvRegPre.set_ecbs (PrvRegPre.rs_bay st) c
+                                   (ecbs_of (PrvRegPre.rs_bay st) c ++ PrvRegProofs.ecb_for sx row type flags :: nil);
+             PrvRegPre.rs_ids := PrvRegProofs.id_of_row sx type row :: PrvRegPre.rs_ids st;
+             PrvRegPre.rs_new := PrvRegProofs.filled sx row type c flags |}).
+Proof. exact PrvRegProofs.prv_register_from_source. Qed.
+Print Assumptions C06_prv_register_from_source.
+
+Theorem C06_prv_register_refusals : forall sx st row type c flags,
+  (existsb (Z.eqb (PrvRegProofs.id_of_row sx type row)) (PrvRegPre.rs_ids st) = true ->
+     PrvReg_gen.prv_register (Some tt) row type (Some tt) (Some c) flags sx st = Err PrvRegPre.E_FAIL) /\
+  (existsb (Z.eqb (PrvRegProofs.id_of_row sx type row)) (PrvRegPre.rs_ids st) = false -> PrvRegPre.rn_alloc_ok sx = true ->
+     PrvRegProofs.flags_ok flags = false ->
+     PrvReg_gen.prv_register (Some tt) row type (Some tt) (Some c) flags sx st = Err PrvRegPre.E_FAIL).
+Proof. exact PrvRegProofs.prv_register_refusals. Qed.
+Print Assumptions C06_prv_register_refusals.
+
+Theorem C06_connect_prv_register_composed : forall sx st cpu row type a ci flags ids nrows new,
+  ConnectComposeProofs.Reg st -> ConnectPre.id_of st a = Some ci -> PrvRegProofs.flags_ok flags = true ->
+  existsb (Z.eqb (type * nrows + row)%Z) ids = false ->
+  exists rs',
+    PrvReg_gen.prv_register (Some tt) row type (Some tt) (Some ci) flags
+      {| PrvRegPre.rn_cpu := cpu; PrvRegPre.rn_nrows := nrows; PrvRegPre.rn_alloc_ok := true |}
+      {| PrvRegPre.rs_bay := ConnectPre.cs_bay st; PrvRegPre.rs_ids := ids; PrvRegPre.rs_new := new |} = Ok (tt, rs') /\
+    ConnectPre.prv_register (Some cpu) row type (Some tt) (Some a) flags sx st = Ok (tt, ConnectPre.with_bay st (PrvRegPre.rs_bay rs')) /\
+    PrvRegPre.rs_ids rs' = ((type * nrows + row)%Z :: ids).
+Proof. exact PrvRegProofs.prv_register_composed. Qed.
+Print Assumptions C06_connect_prv_register_composed.
+
+Theorem C06_chan_init_from_source : forall sx st type fmt,
+  ChanInit_gen.chan_init (Some tt) type fmt sx st =
+  if ((ChanInitPre.ie_len sx <? 0) || (CInt.cast_uint64 (ChanInitPre.ie_len sx) >=? ChanInitPre.c_arraylen))%Z
+  then Err ChanInitPre.E_DIE else Ok (tt, {| ChanInitPre.ic := PrvRegProofs.inited type |}).
+Proof. exact PrvRegProofs.chan_init_from_source. Qed.
+Print Assumptions C06_chan_init_from_source.
+
+Theorem C06_connect_chan_init_composed : forall sx st a type fmt isx ist,
+  (0 <= ChanInitPre.ie_len isx < ChanInitPre.c_arraylen)%Z ->
+  exists ist' st',
+    ChanInit_gen.chan_init (Some tt) type fmt isx ist = Ok (tt, ist') /\
+    ConnectPre.chan_init (Some a) type fmt sx st = Ok (tt, st') /\
+    ConnectPre.pend_get st' a = Some ((type =? ConnectPre.T_STACK)%Z, false, false) /\
+    ChanPre.prop (ChanInitPre.ic ist') = (0 :: CInt.b2z false :: CInt.b2z false :: nil)%Z /\
+    ChanPre.ctype (ChanInitPre.ic ist') = type /\ ChanPre.has_cb (ChanInitPre.ic ist') = false.
+Proof. exact PrvRegProofs.chan_init_composed. Qed.
+Print Assumptions C06_connect_chan_init_composed.
+(* ==== end of block (unit prvreg) ==== *)
+
+(* ==== induction over the number of threads: first loop (unit connect) ==== *)
+(* First step of the induction that would remove `_partial` from C06_wiring_from_source_partial, over ONE size parameter, the
+   number of threads.  ConnectProofs.connect_all runs eight loops; the FIRST one (system.c: thread_init_end of every thread) is
+   done here for EVERY number of threads n, every first index k and every start state:
+   C06_thread_init_end_step: in every state, the generated thread_init_end(t) succeeds and is th_inited_step (the three system
+   channels of t chan_init'ed SINGLE, IGNORE_DUP on the TID channel, t marked initialised).
+   C06_thread_init_loop_all_sizes: by induction on n, generalised over k and the start state.  INDUCTION HYPOTHESIS: for every
+   k' and st', fold_res (run1 (thread_init_end t)) (seq k' n) st' = Ok (fold_left th_inited_step (seq k' n) st'); the step
+   uses C06_thread_init_end_step, which needs no hypothesis on the state.
+   C06_thread_init_loop_pend: what the closed form means: for k <= t < k + n and w < 3 the object &thread[t].chan[w] is
+   recorded (SINGLE, ALLOW_DUP off, IGNORE_DUP iff w = TID); the bay is untouched.
+   NOT DONE (the wiring theorems stay partial): the same for the loops thread_connect (needs the freshness invariant
+   id_of st (ASysTh t w) = None for t >= k, with cs_reg / b_chans / b_ecbs in closed form), model_thread_create,
+   model_thread_connect and the mark loops over threads; the CPU loops (whose mux input tables have one entry per thread);
+   and the proof that ConnectProofs.normalize of the closed form is BayDefs.wire. *)
+From OV Require Proofs.ConnectInductProofs.
+
+Theorem C06_thread_init_end_step : forall sx st t,
+  Connect_gen.thread_init_end (Some t) sx st = Ok (tt, ConnectInductProofs.th_inited_step st t).
+Proof. exact ConnectInductProofs.thread_init_end_step. Qed.
+Print Assumptions C06_thread_init_end_step.
+
+Theorem C06_thread_init_loop_all_sizes : forall (sx : static) n k st,
+  ConnectProofs.fold_res (fun st t => ConnectProofs.run1 sx (Connect_gen.thread_init_end (Some t)) st) (seq k n) st =
+  Ok (fold_left ConnectInductProofs.th_inited_step (seq k n) st).
+Proof. exact ConnectInductProofs.thread_init_loop. Qed.
+Print Assumptions C06_thread_init_loop_all_sizes.
+
+Theorem C06_thread_init_loop_pend : forall n k st t w, (k <= t < k + n)%nat -> (w < 3)%nat ->
+  ConnectPre.pend_get (fold_left ConnectInductProofs.th_inited_step (seq k n) st) (ConnectPre.ASysTh t w) = Some (false, false, Nat.eqb w 1) /\
+  ConnectPre.cs_bay (fold_left ConnectInductProofs.th_inited_step (seq k n) st) = ConnectPre.cs_bay st.
+Proof. exact (fun n k st t w a b => conj (ConnectInductProofs.thread_init_loop_pend n k st t w a b) (ConnectInductProofs.fold_bay n k st)). Qed.
+Print Assumptions C06_thread_init_loop_pend.
+(* ==== end of block (thread induction, first loop) ==== *)
